@@ -336,7 +336,7 @@ def enumerate_fixed(acc, index, part, parts, depth):
 
 def plan(tier, seed_value):
     specs = []
-    per = 2500 if tier == 'thorough' else 70
+    per = 2500 if tier == 'thorough' else 300
     for k in range(16):
         specs.append({'kind': 'random', 'seed': seed_value * 1000 + k,
                       'examples': per})
